@@ -188,7 +188,38 @@ contract("C05", "FixedDistance/stub-point-point", samples=0, replayable=False, t
 
 
 # --------------------------------------------- satisfied where defined (real bodies, real assembler_callback)
+class _Embedded:
+    """A real RigidBody seen through a subsystem whose coordinates are a strict SUPERSET of what the point needs - what a
+    rod is for a joint on one of its cross-sections: local_qDOF_P / local_uDOF_P select the body's coordinates out of
+    q0 = (pre, body q0, post); every kinematic routine takes the LOCAL coordinates, as the rod's do."""
+
+    def __init__(self, body, pre, post):
+        self._body = body
+        self._npre = len(pre)
+        self.q0 = np.concatenate([pre, body.q0, post])
+        self.u0 = np.zeros(body.nu + 3)
+        self.nq, self.nu = len(self.q0), body.nu + 3
+
+    def local_qDOF_P(self, xi=None):
+        return np.arange(7) + self._npre
+
+    def local_uDOF_P(self, xi=None):
+        return np.arange(6) + 2
+
+    def __getattr__(self, name):  # r_OP, A_IB, v_P, J_P, ... of the body (they are given local coordinates)
+        return getattr(self.__dict__["_body"], name)
+
+
 def _real_sub(k, kind, tag, t0):
+    if kind == "embedded":
+        body, q0 = _real_sub(k, "rigid", tag, t0)
+        pre = k.reals(tag + "pre", 3)  # coordinates of other cross-sections, arbitrary
+        post = k.reals(tag + "post", 2)
+        s = _Embedded(body, pre, post)
+        s.t0 = t0
+        s.qDOF = np.arange(s.nq) + 100
+        s.uDOF = np.arange(s.nu) + 50
+        return s, q0
     if kind == "rigid":
         q0 = k.reals(tag + "q0", 7, sample=lambda r: np.concatenate([r.normal(size=3), r.normal(size=4)]))
         k.assume(q0[3:] @ q0[3:] > 0)
@@ -257,6 +288,13 @@ _DEF = [
     ("Planarizer", 2, ("rigid", "frame"), True),
     ("FixedDistance", None, ("rigid", "rigid"), False),
     ("FixedDistance", None, ("point", "frame"), False),
+    # a subsystem of which the point uses only part of the coordinates (a rod cross-section): first, second, both
+    ("FixedDistance", None, ("embedded", "point"), False),
+    ("FixedDistance", None, ("point", "embedded"), False),
+    ("Spherical", None, ("embedded", "rigid"), True),
+    ("RigidConnection", None, ("rigid", "embedded"), False),
+    ("Revolute", 1, ("embedded", "embedded"), True),
+    ("Prismatic", 2, ("frame", "embedded"), True),
 ]
 for _j, _ax, _kinds, _uf in _DEF:
     contract("C05", f"{_j}/defined-satisfied[{_kinds[0]}-{_kinds[1]}{',user-frame' if _uf else ''}]", timeout=180, samples=2)(_defined(_j, _ax, _kinds, _uf))
